@@ -37,9 +37,15 @@ type delaySrc struct {
 	// written before the concurrent phase only
 	gates map[blob.Ref]*depGate
 	stats depStats
+	// holds: blobs whose first Fetch (by the background re-indexing) is held (index_tail.go);
+	// written before the concurrent phase only
+	holds map[blob.Ref]*reindexHold
 }
 
 func (d *delaySrc) Fetch(ctx context.Context, br blob.Ref) (io.ReadCloser, uint32, error) {
+	if h := d.holds[br]; h != nil {
+		h.enter()
+	}
 	d.yield(inject.Call{})
 	rc, size, err := d.Storage.Fetch(ctx, br)
 	if err != nil && d.gates != nil && errors.Is(err, os.ErrNotExist) {
@@ -69,6 +75,9 @@ type ixWorld struct {
 	// parent permanode with one camliMember claim per register permanode (EdgesTo readers)
 	parent  sto.Blob
 	members []sto.Blob
+	// doomed permanodes: one title claim and one delete claim each, delivered delete claim first
+	// while the sorted listings are read (index_tail.go)
+	doomed, doomedClaims, doomedDeletes []sto.Blob
 	items         []ixItem
 	nGroups       int
 	sharedGroupOf [2]int
@@ -118,6 +127,7 @@ func getIxWorld(np, nc, nv int) *ixWorld {
 		w.members = append(w.members, s.Claim(hw.Add, w.parent.Ref, "camliMember", pn.Ref.String(), hw.T(2008, 10+i)))
 	}
 	buildDepItems(w)
+	buildDoomed(w)
 	ixWorlds[key] = w
 	return w
 }
@@ -189,13 +199,20 @@ func runIndexHistory(root string, job jobSpec) *histResult {
 
 	var deps *depRun
 	if job.Deps {
-		ref := getIxRef(fmt.Sprintf("%d/%d/%d", job.Permanodes, job.Claims, job.Victims), w, true, job.Handler)
+		ref := getIxRef(fmt.Sprintf("%d/%d/%d", job.Permanodes, job.Claims, job.Victims), w, true, job.Handler, job.Tail)
 		if ref.err != nil {
 			res.Inconclusive = append(res.Inconclusive, "sequential reference index: "+ref.err.Error())
 			return res
 		}
 		deps = newDepRun(w, ref, rng, src)
 	}
+	if job.Tail {
+		src.holds = map[blob.Ref]*reindexHold{}
+		for _, d := range w.doomedDeletes {
+			src.holds[d.Ref] = newReindexHold()
+		}
+	}
+	deliverFailed := false
 
 	clk := &clock{}
 	var vmu sync.Mutex
@@ -209,6 +226,9 @@ func runIndexHistory(root string, job jobSpec) *histResult {
 	report := func(sig, what string, extra map[string]any) {
 		vmu.Lock()
 		defer vmu.Unlock()
+		if strings.HasPrefix(sig, "deliver-error") {
+			deliverFailed = true
+		}
 		res.viol(sig, what, witness(extra))
 	}
 
@@ -227,6 +247,13 @@ func runIndexHistory(root string, job jobSpec) *histResult {
 	if deps != nil {
 		for i := range w.items {
 			cat = append(cat, catEntry{w.items[i].name, w.items[i].b, w.items[i].typ})
+		}
+	}
+	if job.Tail {
+		for j := range w.doomed {
+			cat = append(cat, catEntry{fmt.Sprintf("doomed%d", j), w.doomed[j], "permanode"})
+			cat = append(cat, catEntry{fmt.Sprintf("doomed-claim%d", j), w.doomedClaims[j], "claim"})
+			cat = append(cat, catEntry{fmt.Sprintf("doomed-delete%d", j), w.doomedDeletes[j], "claim"})
 		}
 	}
 	if job.Handler {
@@ -418,6 +445,23 @@ func runIndexHistory(root string, job jobSpec) *histResult {
 		return res
 	}
 	x.Quiesce()
+	if job.Tail {
+		// the doomed permanodes, one after the other, on the now quiet index
+		var tailRecs []ixRec
+		finished := ev.WithTimeout(150*time.Second, func() {
+			tailRecs = runIndexTail(x, sh, w, src, clk, jit, job, auditSlot+1, report, res)
+		})
+		if !finished {
+			buf := make([]byte, 1<<20)
+			n := runtimeStack(buf)
+			fmt.Fprintf(os.Stderr, "C14: index history %s (tail) did not finish within the watchdog; goroutine dump follows\n%s\n", job.ID, buf[:n])
+			res.Inconclusive = append(res.Inconclusive, fmt.Sprintf("index history %s: the doomed-permanode steps did not finish within the watchdog (possible deadlock): %s", job.ID, ev.PerkeepFrames(string(buf[:n]))))
+			res.Events = append(res.Events, "hung")
+			return res
+		}
+		recs = append(recs, tailRecs)
+		x.Quiesce()
+	}
 
 	// the victims' registers
 	var extra []ixRec
@@ -461,6 +505,16 @@ func runIndexHistory(root string, job jobSpec) *histResult {
 			audit = append(audit, deps.readFileInfo(x, clk, auditSlot, "audit-GetFileInfo", i, report)...)
 		}
 		deps.audit(x, src, report, res)
+	}
+	if job.Tail {
+		var ref *ixRef
+		if deps != nil {
+			ref = deps.ref
+		}
+		vmu.Lock()
+		allAcked := !deliverFailed
+		vmu.Unlock()
+		audit = append(audit, auditTail(x, sh, w, ref, clk, auditSlot, allAcked, report, res)...)
 	}
 	recs[auditSlot] = audit
 	for j := range w.orphans {
